@@ -14,6 +14,7 @@ only RuntimeError may be raised; the answer is the same for a second, different 
 """
 from __future__ import annotations
 
+import functools
 import math
 from decimal import Decimal as D
 
@@ -108,6 +109,34 @@ def explicit_isotope_cases(R, rng, activation):
     return out
 
 
+def iaea_cases(R, rng, activation, n):
+    """calculate_activation(..., abundance=IAEA1987_isotopic_abundance), the documented alternative table: every
+    element whose IAEA abundances differ from the default ones by more than 0.1 % for an isotope with activation
+    rows (alone and in a compound), plus random samples"""
+    out = []
+    els = sorted({z for z, _ in R.isotopes})
+    differ = []
+    for z in els:
+        el = R.pt.elements[z]
+        try:
+            d = max(abs(activation.IAEA1987_isotopic_abundance(el[a]) - activation.NIST2001_isotopic_abundance(el[a]))
+                    / max(activation.NIST2001_isotopic_abundance(el[a]), 1e-300)
+                    for zz, a in R.isotopes if zz == z and activation.NIST2001_isotopic_abundance(el[a]))
+        except Exception:  # noqa
+            d = 0.0
+        if d > 1e-3:
+            differ.append(z)
+    for z in differ:
+        for atoms in ([(1, (z, 0, 0))], [(1, (z, 0, 0)), (rng.choice([1, 2, 3]), (rng.choice(els), 0, 0))]):
+            mass, fl, cd, fr, t = AC.gen_env(rng)
+            fl = AC.logu(rng, 1e6, 1e13)
+            out.append(("iaea", atoms, mass, fl, cd, fr, t, gen_rest_list(rng), gen_rest_list(rng),
+                        rng.choice([0.5, 0.1, 1e-2, 1e-4, 0.9995, 1.0005, 2.0])))
+    for _ in range(n):
+        out.append(("iaea",) + gen_case(R, rng)[1:])
+    return out
+
+
 def corpus():
     co = [(30, (27, 0, 0)), (70, (26, 0, 0))]
     h2o = [(2, (1, 0, 0)), (1, (8, 0, 0))]
@@ -123,11 +152,50 @@ def corpus():
     return out
 
 
-def calc(activation, formula, atoms, mass, fl, cd, fr, t, rests, reuse=False, pre_target=1e-3, scan=0):
+def abundance_of(activation, stream):
+    """the abundance function of a stream: None = the default route (no `abundance=` argument)"""
+    return activation.IAEA1987_isotopic_abundance if stream == "iaea" else None
+
+
+# what is done to the environment object after calculate_activation and before the first decay_time
+# (factor on the fluence, Cd ratio, fast ratio)
+RETUNE_AFTER = [(0.001, 0.0, 0.0), (0.5, None, None), (1e3, 2.0, 5.0), (1e-2, 70.0, 0.0), (30.0, None, 0.0), (0.1, 0.0, 50.0)]
+
+
+def calc_then_retune(activation, formula, atoms, mass, fl, cd, fr, t, rests, k, abundance=None):
+    """calculate_activation, then the environment object is re-used for the next measurement: its attributes are
+    changed in place (and another sample is activated with it) before decay_time is asked for the first time"""
+    from .. import pyside
+    kw = {} if abundance is None else dict(abundance=abundance)
+    env = activation.ActivationEnvironment(fluence=fl, Cd_ratio=cd, fast_ratio=fr)
+    s = activation.Sample(formula(pyside.struct_objs(atoms)), mass)
+    s.calculate_activation(env, exposure=t, rest_times=list(rests), **kw)
+    f0, cd0, fr0 = RETUNE_AFTER[k % len(RETUNE_AFTER)]
+    env.fluence = min(max(fl * f0, AC.FLUENCE[0]), AC.FLUENCE[1])
+    if env.fluence == fl:
+        env.fluence = fl / f0
+    if cd0 is not None:
+        env.Cd_ratio = cd0
+    if fr0 is not None:
+        env.fast_ratio = fr0
+    try:
+        other = activation.Sample(formula("NaCl"), 1.0)
+        other.calculate_activation(env, exposure=1.0, rest_times=[0.0])
+    except Exception:  # noqa
+        pass
+    return s
+
+
+def calc(activation, formula, atoms, mass, fl, cd, fr, t, rests, reuse=False, pre_target=1e-3, scan=0, abundance=None):
     from .. import pyside
     s = activation.Sample(formula(pyside.struct_objs(atoms)), mass)
+    if abundance is not None:
+        _calc0 = s.calculate_activation
+        s_calc = lambda *a, **kw: _calc0(*a, abundance=abundance, **kw)     # noqa
+    else:
+        s_calc = s.calculate_activation
     if reuse:   # the Sample was used for another calculation (and a decay_time for the same target) before
-        s.calculate_activation(activation.ActivationEnvironment(fluence=fl * 10, Cd_ratio=3.0, fast_ratio=2.0),
+        s_calc(activation.ActivationEnvironment(fluence=fl * 10, Cd_ratio=3.0, fast_ratio=2.0),
                                exposure=t * 2, rest_times=[7.0, 0.5])
         for tg in (1e-3, pre_target):
             try:
@@ -145,12 +213,12 @@ def calc(activation, formula, atoms, mass, fl, cd, fr, t, rests, reuse=False, pr
             before = fl / fl0
         env.fluence, env.Cd_ratio, env.fast_ratio = before, (cd if cd0 is None else cd0), (fr if fr0 is None else fr0)
         try:
-            s.calculate_activation(env, exposure=t, rest_times=list(rests) if scan % 2 else [0.0, 3.0])
+            s_calc(env, exposure=t, rest_times=list(rests) if scan % 2 else [0.0, 3.0])
             s.decay_time(1e-3)
         except Exception:  # noqa   (a failure of the earlier calculation is C14's business)
             pass
         env.fluence, env.Cd_ratio, env.fast_ratio = fl, cd, fr
-    s.calculate_activation(env, exposure=t, rest_times=list(rests))
+    s_calc(env, exposure=t, rest_times=list(rests))
     return s
 
 
@@ -161,8 +229,9 @@ def decay(s, target):
         return ("err", type(e).__name__)
 
 
-def parts_of(s, activation):
+def parts_of(s, activation, fn=None):
     from periodictable import core
+    fn = fn or activation.NIST2001_isotopic_abundance
     parts = []
     for el, frac in s.formula.mass_fraction.items():
         if core.ision(el):
@@ -170,15 +239,14 @@ def parts_of(s, activation):
         if core.isisotope(el):
             parts.append((frac, [(el.number, el.isotope, None)]))
         else:
-            parts.append((frac, [(el.number, i, activation.NIST2001_isotopic_abundance(el[i]))
-                                 for i in el.isotopes]))
+            parts.append((frac, [(el.number, i, fn(el[i])) for i in el.isotopes]))
     return parts
 
 
-def independent_a0(R, activation, s0, mass, fl, cd, fr, t):
+def independent_a0(R, activation, s0, mass, fl, cd, fr, t, fn=None):
     """[(row, activity at removal)] from activity() on each isotope of the sample alone"""
     exp = {}
-    for frac, isos in parts_of(s0, activation):
+    for frac, isos in parts_of(s0, activation, fn):
         for z, a, share in isos:
             m = mass * frac if share is None else mass * frac * share * 0.01
             if share is not None and not m:
@@ -214,20 +282,24 @@ def check_cases(run: Run, R, cases, activation):
         inp = dict(stream=stream, atoms=[(c, list(k)) for c, k in atoms], mass=mass, fluence=fl,
                    Cd_ratio=cd, fast_ratio=fr, exposure=t, rest_times=rests, rest_times2=rests2,
                    target_factor=x)
+        fn = abundance_of(activation, stream)
+        calc_ = functools.partial(calc, abundance=fn)
+        if fn is not None:
+            inp["abundance"] = "IAEA1987_isotopic_abundance"
         try:
-            s0 = calc(activation, formula, atoms, mass, fl, cd, fr, t, [0.0])
+            s0 = calc_(activation, formula, atoms, mass, fl, cd, fr, t, [0.0])
             a0 = [(R.index_of[id(k)], v[0]) for k, v in s0.activity.items()]
-            s1 = calc(activation, formula, atoms, mass, fl, cd, fr, t, rests)
+            s1 = calc_(activation, formula, atoms, mass, fl, cd, fr, t, rests)
             pre = x * math.fsum(v[0] for v in s0.activity.values())
-            s2 = calc(activation, formula, atoms, mass, fl, cd, fr, t, rests2, reuse=True,
+            s2 = calc_(activation, formula, atoms, mass, fl, cd, fr, t, rests2, reuse=True,
                       pre_target=pre if pre > 0 and pre != float("inf") else 1e-3)
         except Exception as e:  # noqa   (C14's business; recorded there too)
             run.count(key=repr(case), nontrivial=False, tag="stream:activation-failed")
             continue
-        if stream in ("same-daughter", "explicit-isotope"):
+        if stream in ("same-daughter", "explicit-isotope", "iaea"):
             # reference activities row by row from activity() on each isotope alone (independent of how
             # the Sample keys and accumulates its products)
-            a0 = independent_a0(R, activation, s0, mass, fl, cd, fr, t)
+            a0 = independent_a0(R, activation, s0, mass, fl, cd, fr, t, fn)
         if any(v < 0 for _, v in a0):
             # a negative product activity is C14's failure (known finding D12b: '2n' rows); "the summed
             # activity of all products" is then not a meaningful reference for decay_time
@@ -242,12 +314,20 @@ def check_cases(run: Run, R, cases, activation):
         # the same Sample and environment object after the beam parameters were changed in place
         scan = run.rng.randrange(len(SCAN_BEFORE) * 2)
         try:
-            r4 = decay(calc(activation, formula, atoms, mass, fl, cd, fr, t, rests, reuse="env", scan=scan), target)
+            r4 = decay(calc_(activation, formula, atoms, mass, fl, cd, fr, t, rests, reuse="env", scan=scan), target)
         except Exception as e:  # noqa
             r4 = r1
             run.violation("activating a Sample again after its environment object was updated in place raised %s "
                           "(a fresh Sample and environment compute)" % type(e).__name__,
                           dict(inp, target=target, scan=scan), clause="same-sample-same-environment-object")
+        # the environment object is re-used (changed in place, another sample activated with it) after the
+        # calculation and before decay_time is asked for the first time: the answer is for the activation
+        # that was computed
+        retune = run.rng.randrange(len(RETUNE_AFTER))
+        try:
+            r5 = decay(calc_then_retune(activation, formula, atoms, mass, fl, cd, fr, t, rests, retune, abundance=fn), target)
+        except Exception as e:  # noqa
+            r5 = ("err", "calculate_activation:" + type(e).__name__)
         # another sample is activated in between: the answer for this one must not move
         try:
             other = activation.Sample(formula("Au" if atoms[0][1][0] != 79 else "Co"), 2.5)
@@ -262,7 +342,7 @@ def check_cases(run: Run, R, cases, activation):
         # the identical activation computed again (twice) for a new Sample: the same answer
         try:
             for _rep in range(2):
-                r1c = decay(calc(activation, formula, atoms, mass, fl, cd, fr, t, rests), target)
+                r1c = decay(calc_(activation, formula, atoms, mass, fl, cd, fr, t, rests), target)
                 if r1c[0] != r1[0] or (r1[0] == "ok" and not same_time(r1c[1], r1[1])):
                     run.violation("decay_time after computing the identical activation once more is %r, the first time %r"
                                   % (r1c, r1), dict(inp, target=target), clause="independent-of-earlier-activations")
@@ -273,14 +353,14 @@ def check_cases(run: Run, R, cases, activation):
         # a history of questions on one sample: a high target first, then lower ones down to the level
         # of the weakest product – each answer is the one a fresh sample gives
         try:
-            s3 = calc(activation, formula, atoms, mass, fl, cd, fr, t, rests)
+            s3 = calc_(activation, formula, atoms, mass, fl, cd, fr, t, rests)
             pos = [v for _, v in a0 if v > 0]
             seq = [5 * total0, target, 2 * target] + ([0.5 * min(pos), target] if pos else [])
             for tg in seq:
                 if not (tg > 0) or tg == float("inf"):
                     continue
                 got = decay(s3, tg)
-                ref = decay(calc(activation, formula, atoms, mass, fl, cd, fr, t, rests), tg)
+                ref = decay(calc_(activation, formula, atoms, mass, fl, cd, fr, t, rests), tg)
                 if got[0] != ref[0] or (got[0] == "ok" and not same_time(got[1], ref[1])):
                     run.violation("decay_time(%r) on a sample that answered other targets before is %r, a fresh "
                                   "sample gives %r" % (tg, got, ref),
@@ -294,14 +374,14 @@ def check_cases(run: Run, R, cases, activation):
         half = {i: R.fields(i)["Thalf_hrs"] for i, _ in feed}
         reqs.append("decaydata %s %d %s" % (f2h(target), len(feed),
                                             " ".join("%s %s" % (f2h(v), f2h(half[i])) for i, v in feed)))
-        reqs.append(AC.calc_line(mass, fl, cd, fr, t, rests, parts_of(s1, activation)))
+        reqs.append(AC.calc_line(mass, fl, cd, fr, t, rests, parts_of(s1, activation, fn)))
         reqs.append("removal")
         reqs.append("decay %s" % f2h(target))
-        infos.append((case, inp, a0, total0, target, r1, r2, feed, half, (scan, r4)))
+        infos.append((case, inp, a0, total0, target, r1, r2, feed, half, (scan, r4, retune, r5)))
     reps = run_driver("activation", reqs) if reqs else []
     if len(reps) != len(reqs):
         raise InfraError("driver returned %d replies for %d requests" % (len(reps), len(reqs)))
-    for j, (case, inp, a0, total0, target, r1, r2, feed, half, (scan, r4)) in enumerate(infos):
+    for j, (case, inp, a0, total0, target, r1, r2, feed, half, (scan, r4, retune, r5)) in enumerate(infos):
         rd, rc, rrem, rdec = reps[4 * j:4 * j + 4]
         inp = dict(inp, target=target, activity_at_removal=total0)
         halves = sorted({R.fields(i)["Thalf_hrs"] for i, v in a0 if v > 0})
@@ -351,11 +431,22 @@ def check_cases(run: Run, R, cases, activation):
                                 "calculate_activation again; decay_time(target)"
                                 % (fl0, "" if cd0 is None else ", Cd ratio %g, fast ratio %g" % (cd0, fr0)),
                                 scan=scan, fresh_sample_result=r1), a0, total0, target, r4, r4)
+        if r5 != r1:
+            f0, cd0, fr0 = RETUNE_AFTER[retune % len(RETUNE_AFTER)]
+            oracle(run, R, dict(inp, sequence="calculate_activation(env, ...); then env.fluence x %g%s%s in place and another "
+                                "sample activated with env; then the first decay_time(target) of this sample"
+                                % (f0, "" if cd0 is None else ", env.Cd_ratio = %g" % cd0,
+                                   "" if fr0 is None else ", env.fast_ratio = %g" % fr0),
+                                retune=retune, untouched_environment_result=r1), a0, total0, target, r5, r5)
 
 
 def oracle(run, R, inp, a0, total0, target, r1, r2):
     """the property itself on the real code"""
-    products = [(v, R.fields(i)["Thalf_hrs"]) for i, v in a0]
+    oracle_products(run, inp, [(v, R.fields(i)["Thalf_hrs"]) for i, v in a0], target, r1, r2)
+
+
+def oracle_products(run, inp, products, target, r1, r2):
+    """products = [(activity at removal, half-life in hours)]"""
     exact0 = O.total_activity(products, 0.0)
     tgt = O.dec(target)
     band = D("1.001")
@@ -390,6 +481,93 @@ def oracle(run, R, inp, a0, total0, target, r1, r2):
                       outcome=r1[1] if r1[0] == "err" else "time")
 
 
+COPY_FORMULAS = ["MnCu2", "Co30Fe70", "NaCl", "Au", "WO3", "CaTiO3", "Li2SO4", "KBr", "Mn", "Cu", "AgI", "InSb", "Al2O3",
+                 "Dy2O3", "EuS", "V2O5"]
+
+
+def copy_cases(run: Run, R, activation, n):
+    """saved copies (copy.deepcopy / pickle round trip) of activated Samples whose atoms belong to a private table
+    with revised half-lives, or to the standard and the private table at once: decay_time of the copy is judged
+    by the property - the products of that calculation, each decaying with the half-life its own table gives"""
+    import copy
+    import pickle
+    from periodictable import core, mass as _mass, density as _density
+    from periodictable.formulas import formula
+    rng = run.rng
+    try:
+        T = core.PeriodicTable("c15-private-%d-%d" % (id(run) % 100000, rng.randrange(10 ** 6)))
+        _mass.init(T)
+        _density.init(T)
+        activation.init(T)
+        for el in T:
+            for iso in el:
+                for rec in getattr(iso, "neutron_activation", ()) or ():
+                    if rng.random() < 0.8:
+                        rec.Thalf_hrs = rec.Thalf_hrs * rng.choice([0.5, 0.8, 1.25, 2.0, 3.0])
+    except Exception as e:  # noqa
+        run.violation("setting up a private table with activation data raised %s" % type(e).__name__,
+                      dict(kind="copy", step="private-table"), outcome=type(e).__name__)
+        return
+    std = R.pt.elements
+    els = sorted({z for z, _ in R.isotopes})
+    for ci in range(n):
+        r = rng.random()
+        if r < 0.6:
+            text = rng.choice(COPY_FORMULAS)
+            build = lambda: formula(text, table=T)                                   # noqa
+            desc = "formula(%r, table=private)" % text
+        else:
+            z = rng.choice(els)
+            z2 = rng.choice(els)
+            c1, c2 = rng.choice([1, 2, 3]), rng.choice([1, 2, 0.5])
+            pairs = [(c1, std[z]), (c2, T[z])] + ([(1, T[z2])] if r < 0.8 else [])
+            build = lambda: formula(pairs)                                           # noqa
+            desc = "formula([(%r, %s of the standard table), (%r, %s of the private table)%s])" % (
+                c1, std[z].symbol, c2, std[z].symbol, ", (1, %s of the private table)" % std[z2].symbol if r < 0.8 else "")
+        mass, fl, cd, fr, t = AC.gen_env(rng)
+        fl = AC.logu(rng, 1e6, 1e13)
+        rests = gen_rest_list(rng)
+        x = rng.choice([0.5, 0.1, 1e-2, 1e-3, 0.9, 0.75, 1.0005, 2.0])
+        how = rng.choice(["copy.deepcopy(sample)", "pickle.loads(pickle.dumps(sample))"])
+        inp = dict(kind="copy", sample=desc, mass=mass, fluence=fl, Cd_ratio=cd, fast_ratio=fr, exposure=t,
+                   rest_times=rests, target_factor=x, copy=how,
+                   private_table="activation.init(private); half-lives of its rows revised in place (x 0.5 ... x 3)")
+
+        def activated(rest_list):
+            smp = activation.Sample(build(), mass)
+            smp.calculate_activation(activation.ActivationEnvironment(fluence=fl, Cd_ratio=cd, fast_ratio=fr),
+                                     exposure=t, rest_times=list(rest_list))
+            return smp
+        try:
+            s0 = activated([0.0])
+            products = [(v[0], float(k.Thalf_hrs)) for k, v in s0.activity.items()]
+            s1 = activated(rests)
+        except Exception:  # noqa   (C14's business)
+            run.count(key=("copy", ci, desc), nontrivial=False, tag="stream:activation-failed")
+            continue
+        total0 = math.fsum(v for v, _ in products)
+        target = x * total0
+        if any(v < 0 for v, _ in products) or not (target > 0) or target == float("inf"):
+            run.count(key=("copy", ci, desc), nontrivial=False, tag="stream:no-activity")
+            continue
+        try:
+            clone = copy.deepcopy(s1) if how.startswith("copy") else pickle.loads(pickle.dumps(s1))
+        except Exception as e:  # noqa
+            run.count(key=repr(("copy", desc, mass, fl, cd, fr, t, rests, x, how)), nontrivial=False, sample=inp,
+                      tag="stream:copy")
+            run.violation("%s of an activated Sample raised %s" % (how, type(e).__name__), dict(inp, target=target),
+                          outcome=type(e).__name__)
+            continue
+        r_orig, r_copy = decay(s1, target), decay(clone, target)
+        halves = {h for v, h in products if v > 0}
+        run.count(key=repr(("copy", desc, mass, fl, cd, fr, t, rests, x, how)),
+                  nontrivial=total0 > target and len(halves) >= 2, sample=inp, tag="stream:copy")
+        inp = dict(inp, target=target, activity_at_removal=total0, original_sample_result=r_orig,
+                   products_activity_and_half_life=[list(p_) for p_ in products])
+        oracle_products(run, dict(inp, asked="the original sample"), products, target, r_orig, r_orig)
+        oracle_products(run, dict(inp, asked="the copy"), products, target, r_copy, r_copy)
+
+
 def run(run: Run) -> int:
     import_repo()
     from periodictable import activation
@@ -397,9 +575,11 @@ def run(run: Run) -> int:
     R = AC.Rows()
     n = 1200 if run.tier == "quick" else 50000
     cases = corpus() + same_daughter_cases(R, run.rng, 16 if run.tier == "quick" else 200) + \
-        explicit_isotope_cases(R, run.rng, activation) + [gen_case(R, run.rng) for _ in range(n)]
+        explicit_isotope_cases(R, run.rng, activation) + [gen_case(R, run.rng) for _ in range(n)] + \
+        iaea_cases(R, run.rng, activation, 100 if run.tier == "quick" else 5000)
     for i in range(0, len(cases), 5000):
         check_cases(run, R, cases[i:i + 5000], activation)
+    copy_cases(run, R, activation, 150 if run.tier == "quick" else 5000)
     return run.finish(RULE, assumptions=[
         "floating-point rounding of the Newton iteration is not proved (compared with the model at 1e-9)",
         "the activities handed to decay_time are those of C14; abundances and mass fractions as in C02 / C06",
@@ -413,19 +593,25 @@ def replay(data) -> int:
     R = AC.Rows()
     for v in data.get("violations", []) + data.get("disagreements", []):
         inp = v["input"]
+        if inp.get("kind") == "copy":
+            print("input:", inp)
+            print(" what       :", v.get("what"))
+            continue
         atoms = [(c, tuple(k)) for c, k in inp["atoms"]]
         args = (inp["mass"], inp["fluence"], inp["Cd_ratio"], inp["fast_ratio"], inp["exposure"])
-        s0 = calc(activation, formula, atoms, *args, [0.0])
+        fn = abundance_of(activation, inp.get("stream"))
+        calc_ = functools.partial(calc, abundance=fn)
+        s0 = calc_(activation, formula, atoms, *args, [0.0])
         a0 = [(R.index_of[id(k)], x[0]) for k, x in s0.activity.items()]
-        if inp.get("stream") in ("same-daughter", "explicit-isotope"):
-            a0 = independent_a0(R, activation, s0, *args)
+        if inp.get("stream") in ("same-daughter", "explicit-isotope", "iaea"):
+            a0 = independent_a0(R, activation, s0, *args, fn)
         total0 = math.fsum(x for _, x in a0)
         target = inp.get("target", inp["target_factor"] * total0)
         print("input:", {k: inp[k] for k in ("atoms", "mass", "fluence", "Cd_ratio", "fast_ratio", "exposure",
                                              "rest_times", "rest_times2")}, "target", target)
         products = [(x, R.fields(i)["Thalf_hrs"]) for i, x in a0]
         for rests in (inp["rest_times"], inp["rest_times2"]):
-            s = calc(activation, formula, atoms, *args, rests)
+            s = calc_(activation, formula, atoms, *args, rests)
             r = decay(s, target)
             print(" real code  rest_times=%r: %r" % (rests, r))
             if r[0] == "ok":
@@ -433,9 +619,15 @@ def replay(data) -> int:
                 print("   oracle: activity at removal %.12g, at t %.12g, target %.12g (ratio %.9f)"
                       % (float(O.total_activity(products, 0.0)), float(at), target, float(at / O.dec(target))))
         if "scan" in inp:
-            r = decay(calc(activation, formula, atoms, *args, inp["rest_times"], reuse="env", scan=inp["scan"]), target)
+            r = decay(calc_(activation, formula, atoms, *args, inp["rest_times"], reuse="env", scan=inp["scan"]), target)
             print(" real code  same Sample and environment object, beam changed in place before (scan %d): %r"
                   % (inp["scan"], r))
+            if r[0] == "ok":
+                print("   oracle: activity at t %.12g, target %.12g" % (float(O.total_activity(products, r[1])), target))
+        if "retune" in inp:
+            r = decay(calc_then_retune(activation, formula, atoms, *args, inp["rest_times"], inp["retune"], abundance=fn), target)
+            print(" real code  environment object changed in place after calculate_activation (retune %d): %r"
+                  % (inp["retune"], r))
             if r[0] == "ok":
                 print("   oracle: activity at t %.12g, target %.12g" % (float(O.total_activity(products, r[1])), target))
         half = {i: R.fields(i)["Thalf_hrs"] for i, _ in a0}
